@@ -1,6 +1,268 @@
-(* C14 - Each SFTP request gets exactly one matching, well-typed reply. (placeholder while building) *)
-From AV Require Import Base.Prelude Model.SftpProto Proofs.SftpProtoProofs.
+(* C14 - Each SFTP request gets exactly one matching, well-typed reply.
+   Statements only; proofs are in Proofs/SftpProtoProofs.v, the model in Model/SftpProto.v,
+   the tables taken from the running code in Gen/SftpTables.v. *)
+From AV Require Import Base.Prelude Model.SftpProto Gen.SftpTables Proofs.SftpProtoProofs.
 
-Theorem C14_u32_roundtrip : forall x r, 0 <= x < TWO32 -> get_u32 (put_u32 x ++ r) = Some (x, r).
-Proof. exact get_put_u32. Qed.
-Print Assumptions C14_u32_roundtrip.
+(* ---- client: request ids ------------------------------------------------------------------ *)
+
+(* After any sequence of requests, replies (any type, any id, any order), cancellations, short frames
+   and EOF:
+   the id the next request will get differs from the id of every outstanding request that was issued
+   fewer than 2^32 requests ago.  (The hypothesis is needed: see C14_ids_stale_refuted.) *)
+Theorem C14_ids : forall evs,
+  let s := fst (c_run c_init evs) in
+  forall id w, In (id, w) (c_reqs s) -> c_count s - w < TWO32 -> id <> c_next s.
+Proof. exact next_id_fresh. Qed.
+Print Assumptions C14_ids.
+
+(* ... so such a request displaces no waiter, and the ids (and waiters) in the table are always
+   pairwise distinct. *)
+Theorem C14_ids_table : forall evs,
+  let s := fst (c_run c_init evs) in
+  NoDup (map fst (c_reqs s)) /\ NoDup (map snd (c_reqs s)) /\
+  ((forall id w, In (id, w) (c_reqs s) -> c_count s - w < TWO32) ->
+   forall id w, In (id, w) (c_reqs s) -> In (id, w) (c_reqs (fst (c_step s CSend)))).
+Proof.
+  intros evs. split; [apply outstanding_distinct|]. split; [apply outstanding_distinct|]. apply send_keeps_waiters.
+Qed.
+Print Assumptions C14_ids_table.
+
+(* Without that hypothesis the statement of the plan ("ids are pairwise distinct while fewer than 2^32
+   are outstanding") is false for the code as written: with a single request outstanding, 2^32 - 1
+   further requests (each answered at once) bring the counter back to its id; the next request would
+   take over its table entry. Reaching this state needs 2^32 requests on one session. *)
+Theorem C14_ids_stale_refuted :
+  exists evs, let s := fst (c_run c_init evs) in
+              c_reqs s = [(0, 0)] /\ c_open s = true /\ c_next s = 0 /\ c_count s = TWO32.
+Proof. exact stale_request_meets_wrapped_counter. Qed.
+Print Assumptions C14_ids_stale_refuted.
+
+(* ---- client: routing ---------------------------------------------------------------------- *)
+
+(* Over every event sequence: a reply is only ever handed to the waiter whose request went out with
+   that reply's id; request number w carries id w mod 2^32; nobody gets two outcomes. *)
+Theorem C14_route : forall evs,
+  let '(s, outs) := c_run c_init evs in
+  (forall w ty id p, In (ODeliver w ty id p) outs -> In (OSent w id) outs) /\
+  (forall w id, In (OSent w id) outs -> id = w mod TWO32) /\
+  NoDup (outcome_waiters outs).
+Proof. exact route_run. Qed.
+Print Assumptions C14_route.
+
+(* In every reachable live state, for every reply (any type, any payload): if a waiter is registered
+   under its id it is delivered to exactly that waiter, unchanged, and all other waiters keep waiting
+   (so the order in which replies arrive does not matter) - unless that waiter's caller was cancelled,
+   in which case the late reply is dropped and the session goes on; if nobody is registered under the
+   id (unknown or duplicate reply) every waiter that was not cancelled fails with BAD_MESSAGE, the
+   session ends, and nothing is delivered. *)
+Theorem C14_route_step : forall evs ty id p,
+  let s := fst (c_run c_init evs) in
+  c_open s = true ->
+  (forall w, In (id, w) (c_reqs s) ->
+     exists rest,
+       (forall x, In x (c_reqs s) -> x = (id, w) \/ In x rest) /\ ~ In id (map fst rest) /\
+       c_step s (CRecv ty id p) =
+         if memz w (c_cancelled s)
+         then (mkc (c_next s) (c_count s) rest true (removez w (c_cancelled s)), [])
+         else (mkc (c_next s) (c_count s) rest true (c_cancelled s), [ODeliver w ty id p])) /\
+  ((forall w, ~ In (id, w) (c_reqs s)) ->
+     c_step s (CRecv ty id p) =
+       (mkc (c_next s) (c_count s) [] false [],
+        map (fun kw => OFail (snd kw) (ESftp FX_BAD_MESSAGE))
+            (filter (fun kw => negb (memz (snd kw) (c_cancelled s))) (c_reqs s)))).
+Proof. exact route_step. Qed.
+Print Assumptions C14_route_step.
+
+(* Cancelling a caller never removes a table entry (so the reply the server still owes is not mistaken
+   for an unknown id) and never ends the session. *)
+Theorem C14_cancel_keeps_table : forall s w,
+  c_reqs (fst (c_step s (CCancel w))) = c_reqs s /\ c_open (fst (c_step s (CCancel w))) = c_open s.
+Proof. exact cancel_keeps_table. Qed.
+Print Assumptions C14_cancel_keeps_table.
+
+(* ---- client: reply type ------------------------------------------------------------------- *)
+
+(* A caller only ever gets a value from a reply whose type is the one its request calls for; a STATUS
+   reply gives a normal return only to requests answered by status alone. *)
+Theorem C14_type : forall v rt ty p val,
+  accept v rt ty p = Ok val ->
+  (ty = FXP_STATUS /\ rt = None /\ val = VNone) \/ (rt = Some ty /\ ty <> FXP_STATUS).
+Proof. exact accept_type. Qed.
+Print Assumptions C14_type.
+
+Theorem C14_type_wrong : forall v rt ty p,
+  ty <> FXP_STATUS -> rt <> Some ty -> accept v rt ty p = Err (ESftp FX_BAD_MESSAGE).
+Proof. exact accept_wrong_type. Qed.
+Print Assumptions C14_type_wrong.
+
+(* ---- server: one reply per request --------------------------------------------------------- *)
+
+(* For every protocol version, every session state, every sequence of request packets long enough to
+   carry a type and an id (any type, any body: truncated, extended, random), every behaviour of the
+   application behind the server (return, return nothing, SFTPError, OSError, NotImplementedError, any
+   other exception) and of the attribute formatter: each packet is answered by exactly one reply, with
+   the packet's id, of type STATUS or the reply type of the request it names; every status code sent in
+   versions 3-6 is one the version defines; and the session stays open. *)
+Theorem C14_server_once : forall fmt_ok v pkts s,
+  s_open s = true -> Forall (fun pb => (5 <= length (fst pb))%nat) pkts ->
+  s_open (fst (s_run fmt_ok v s pkts)) = true /\
+  Forall2 (fun pb rs => answered_once v (fst pb) rs) pkts (snd (s_run fmt_ok v s pkts)).
+Proof. intros. apply s_run_once; assumption. Qed.
+Print Assumptions C14_server_once.
+
+(* A request type the server has no handler for: OP_UNSUPPORTED, state untouched. *)
+Theorem C14_server_unsupported : forall fmt_ok v s ty id body br k b,
+  key_and_body ty body = Ok (k, b) -> req_spec v k = None ->
+  s_process fmt_ok v s ty id body br = (s, [mkreply FXP_STATUS id (RStatus FX_OP_UNSUPPORTED)]).
+Proof. exact s_process_unsupported. Qed.
+Print Assumptions C14_server_unsupported.
+
+(* A body that cannot be decoded: an error status (BAD_MESSAGE for a short packet), state untouched,
+   the application is not called. *)
+Theorem C14_server_malformed : forall fmt_ok v s ty id body br k b fs ec e,
+  key_and_body ty body = Ok (k, b) -> req_spec v k = Some (fs, ec) -> parse_flds v fs b = Err e ->
+  s_process fmt_ok v s ty id body br = (s, [mkreply FXP_STATUS id (ladder v e)]).
+Proof. exact s_process_malformed. Qed.
+Print Assumptions C14_server_malformed.
+
+(* Bytes after a complete body, where the handler checks for the end: BAD_MESSAGE. *)
+Theorem C14_server_trailing : forall fmt_ok v s ty id body br k b fs ec xs rest,
+  key_and_body ty body = Ok (k, b) -> req_spec v k = Some (fs, ec) -> parse_flds v fs b = Ok (xs, rest) ->
+  rest <> [] -> (ec = EndAlways \/ (ec = EndLt6 /\ v < 6)) ->
+  s_process fmt_ok v s ty id body br = (s, [mkreply FXP_STATUS id (RStatus FX_BAD_MESSAGE)]).
+Proof. exact s_process_trailing. Qed.
+Print Assumptions C14_server_trailing.
+
+(* Every truncation: if the body of a request decodes completely (nothing left over) under the layout of
+   its request type, then the same request with any non-empty suffix of that body cut off is answered
+   by exactly one STATUS reply with its id and a code other than FX_OK, whatever the application would
+   have done, and the server state is unchanged.  (Layouts ending in an open-ended list are excluded:
+   there is exactly one, the SFTPv6 REALPATH compose-path list, C14_server_open_ended.) *)
+Theorem C14_server_truncation : forall fmt_ok v s ty id body' br k b b' t fs ec xs,
+  req_spec v k = Some (fs, ec) -> no_rest fs -> parse_flds v fs b = Ok (xs, []) ->
+  b = b' ++ t -> t <> [] -> key_and_body ty body' = Ok (k, b') ->
+  exists c, s_process fmt_ok v s ty id body' br = (s, [mkreply FXP_STATUS id (RStatus c)]) /\ c <> FX_OK.
+Proof. exact s_process_truncated. Qed.
+Print Assumptions C14_server_truncation.
+
+Theorem C14_server_open_ended : forall v k fs ec,
+  req_spec v k = Some (fs, ec) -> no_rest fs \/ (k = HInt FXP_REALPATH /\ 6 <= v).
+Proof. exact req_spec_rest. Qed.
+Print Assumptions C14_server_open_ended.
+
+(* ---- codecs -------------------------------------------------------------------------------- *)
+
+(* In each of the versions 3..6, every attribute record the version can carry (attrs_carriable: a
+   boolean predicate over all 24 fields, i.e. over every combination of presence flags) encodes without
+   error, and decoding the encoding - followed by any further bytes - returns exactly that record and
+   leaves exactly those bytes. *)
+Theorem C14_attrs_roundtrip : forall v a rest,
+  3 <= v <= 6 -> attrs_carriable v a = true ->
+  attrs_enc_ok v a = true /\ attrs_decode v (attrs_encode v a ++ rest) = Ok (a, rest).
+Proof. intros v a rest Hv C. split; [apply attrs_carriable_enc_ok; assumption|apply attrs_rt; assumption]. Qed.
+Print Assumptions C14_attrs_roundtrip.
+
+Theorem C14_names_roundtrip : forall v n rest,
+  3 <= v <= 6 -> name_carriable v n = true ->
+  name_enc_ok v n = true /\ name_decode v (name_encode v n ++ rest) = Ok (n, rest).
+Proof. intros v n rest Hv C. split; [apply name_carriable_enc_ok; assumption|apply name_rt; assumption]. Qed.
+Print Assumptions C14_names_roundtrip.
+
+(* the name list of an FXP_NAME reply *)
+Theorem C14_name_list_roundtrip : forall v l rest,
+  3 <= v <= 6 -> forallb (name_carriable v) l = true ->
+  names_decode (S (length (flat_map (name_encode v) l ++ rest))) v (Z.of_nat (length l))
+               (flat_map (name_encode v) l ++ rest) = Ok (l, rest).
+Proof.
+  intros v l rest Hv C. apply names_rt; [exact Hv| |exact C].
+  clear C. induction l as [|n l IH]; cbn [length flat_map]; [lia|].
+  rewrite <- app_assoc, app_length. pose proof (name_encode_nonempty v n). lia.
+Qed.
+Print Assumptions C14_name_list_roundtrip.
+
+(* ---- status codes -------------------------------------------------------------------------- *)
+
+(* Whatever code an error carries, the code sent to a version-v peer (3..6) is, when below 32, one
+   that version v defines (docs/api.rst "SFTP error codes"); codes the version defines are sent
+   unchanged (NOT_A_DIRECTORY below v6 excepted: it is sent as NO_SUCH_FILE). *)
+Theorem C14_status_representable : forall v code,
+  3 <= v <= 6 -> status_code_for v code <= FX_V6_END -> fx_min_version (status_code_for v code) <= v.
+Proof. exact status_code_representable. Qed.
+Print Assumptions C14_status_representable.
+
+Theorem C14_status_unchanged : forall v code,
+  0 <= code <= FX_V6_END -> fx_min_version code <= v -> code <> FX_NOT_A_DIRECTORY \/ 6 <= v ->
+  status_code_for v code = code.
+Proof. exact status_code_unchanged. Qed.
+Print Assumptions C14_status_unchanged.
+
+(* a status reply decodes to the code, reason and language it was built from *)
+Theorem C14_status_roundtrip : forall v code reason lang,
+  0 <= status_code_for v code < TWO32 -> status_code_for v code <> FX_UNKNOWN_PRINCIPAL ->
+  str_ok reason = true -> utf8_valid reason = true -> str_ok lang = true -> ascii_valid lang = true ->
+  status_decode v (status_encode v code reason lang) = Ok (status_code_for v code, reason, lang).
+Proof. exact status_rt. Qed.
+Print Assumptions C14_status_roundtrip.
+
+(* ---- tables taken from the running code on this run (Gen/SftpTables.v) ----------------------- *)
+
+(* Every errno in the table (all values 0..159 and "no errno", each probed on the running server in
+   every version): the status code observed is the documented one (errno_code) after the version
+   down-mapping, and it is a code the version defines. *)
+Theorem C14_errno_table : forall e sym codes v,
+  In (e, sym, codes) gen_errno_status -> 3 <= v <= 6 ->
+  nth (Z.to_nat (v - 3)) codes 0 = status_code_for v (errno_code sym) /\
+  fx_min_version (nth (Z.to_nat (v - 3)) codes 0) <= v.
+Proof. exact errno_table_spec. Qed.
+Print Assumptions C14_errno_table.
+
+(* Every SFTPError code in the table (0..47 and some large ones), every version: the code observed
+   on the wire is status_code_for. *)
+Theorem C14_sftp_error_table : forall c codes v,
+  In (c, codes) gen_sftp_status -> 3 <= v <= 6 -> nth (Z.to_nat (v - 3)) codes 0 = status_code_for v c.
+Proof. exact sftp_table_spec. Qed.
+Print Assumptions C14_sftp_error_table.
+
+(* The running server has a handler for packet type t (0..255, per version) exactly when the model
+   has a body layout for it; the attribute flag bits the running decoder accepts are those of the
+   model; the exception the running client builds for status code c (0..47) carries c; and
+   SFTPHandler._return_types is the model's return_type. *)
+Theorem C14_code_tables :
+  handled_table_ok gen_handled_types = true /\
+  attr_bits_table_ok gen_accepted_attr_bits = true /\
+  client_err_table_ok gen_client_error_code = true /\
+  return_types_table_ok gen_return_types_available gen_return_types_int gen_return_types_ext = true.
+Proof.
+  split; [exact handled_table_checked|]. split; [exact attr_bits_table_checked|].
+  split; [exact client_err_table_checked|exact return_types_table_checked].
+Qed.
+Print Assumptions C14_code_tables.
+
+(* ---- non-vacuity ---------------------------------------------------------------------------- *)
+
+Example C14_carriable_v3 :
+  attrs_carriable 3 (mkattrs FT_REGULAR (Some 5) None (Some 1000) (Some 100) None None (Some 33188)
+                             (Some 1700000000) None None None (Some 1700000001) None None None
+                             None None None None None None None [([107], [118])]) = true.
+Proof. vm_compute. reflexivity. Qed.
+
+Example C14_carriable_v6 :
+  attrs_carriable 6 (mkattrs FT_FIFO (Some 5) (Some 4096) None None (Some [195; 188]) (Some [103]) (Some 420)
+                             (Some 7) (Some 9) (Some 1) (Some 0) (Some 8) (Some 999999999) (Some 2) (Some 4294967295)
+                             (Some [1; 2]) (Some 65) (Some 255) (Some 2) (Some [116; 47; 112]) (Some 3) (Some [255])
+                             [([107], [118]); ([], [0])]) = true.
+Proof. vm_compute. reflexivity. Qed.
+
+(* three requests answered in the order 2, 0, then a reply with an unknown id: waiters 2 and 0 get
+   their own replies, waiter 1 fails, the session ends *)
+Example C14_route_example :
+  snd (c_run c_init [CSend; CSend; CSend; CRecv 101 2 [22]; CRecv 105 0 [0]; CRecv 101 7 []]) =
+  [OSent 0 0; OSent 1 1; OSent 2 2; ODeliver 2 101 2 [22]; ODeliver 0 105 0 [0]; OFail 1 (ESftp 5)].
+Proof. vm_compute. reflexivity. Qed.
+
+(* a truncated OPEN, an unknown type and a valid STAT: three replies, session open *)
+Example C14_server_example :
+  s_run (fun _ => true) 3 s_init
+        [([3; 0;0;0;1; 0;0;0;9; 47], BOk); ([99; 0;0;0;2], BOk); ([17; 0;0;0;3; 0;0;0;1; 47], BOs 1)] =
+  (s_init, [[mkreply 101 1 (RStatus 5)]; [mkreply 101 2 (RStatus 8)]; [mkreply 101 3 (RStatus 2)]]).
+Proof. vm_compute. reflexivity. Qed.
